@@ -122,6 +122,16 @@ add("C14", "TLC exhaustive on ControllerCG.tla + replay of controller behaviours
     "ground truth (true residual vs criterion, value/gradient consistency). InversionEnabler.inverse_times/adjoint_inverse_times must solve the system.",
     TRUST + "criterion values within 1e-9 of the threshold are left to TLC; residual margin 1e-10*cond*|b|.")
 
+add("C16", "TLC exhaustive on Descent.tla (minimiser loop + L-BFGS ring buffers) and LineSearch.tla + trace validation of real minimiser runs (DescentTrace.tla) and of every trial of real line searches (LineSearchTrace.tla) with recomputed Wolfe conditions",
+    "The loop of DescentMinimizer.__call__ and the bracketing/zoom skeleton of LineSearch are specified over abstract energy levels and the floating-point "
+    "facts of each trial step; TLC checks Monotone, ReturnsLevel, OnlyTwoVerdicts, SuccessIsWolfe, Terminates and, as an assumption evaluated at start-up, "
+    "that both L-BFGS variants address the same (s,y) pairs in the same order for k<=2m+2, m<=3. Real runs of the five minimisers on convex and "
+    "non-convex analytic energies are recorded through a recording controller and line searcher (including runs in which a user-supplied faulty line "
+    "searcher returns a higher / equal energy) and validated by DescentTrace.tla; every energy evaluation of 300/3000 real line searches (varying c1, "
+    "c2, initial step, direction quality) is recorded through a recording energy and validated by LineSearchTrace.tla; the strong Wolfe conditions are "
+    "recomputed at every point returned with success; L_BFGS and VL_BFGS are fed the same histories and must return the same direction.",
+    TRUST + "Wolfe slack 1e-10; facts within 1e-12 of their threshold are left to TLC.")
+
 
 def main():
     props = [json.loads(l) for l in open(os.path.join(HERE, "properties.jsonl"))]
